@@ -271,6 +271,24 @@ def run_network(ctx, ds, shape, s, ftype, upa_kind, upa_arr, upa_int, methods=ME
             ctx.count("feature:ihu-outlet-outside-own-cell")
         _add_upscale(ctx, desc, common_args, method, tuple(flw1.shape), shape1, cds, o, ds, s, nontriv,
                      ftype_ok=(flw1.ftype == ftype))
+        # the deprecated spellings 'com' / 'com2' (any case) are documented as renamed to eam_plus / ihu: same result
+        alias = {"eam_plus": "com", "ihu": "com2"}.get(method)
+        if alias is not None and ctx.rng.random() < 0.2:
+            import warnings as _w
+            spelled = ctx.rng.choice([alias, alias.upper(), alias.capitalize()])
+            ctx.count("feature:deprecated-method-alias")
+            ctx.evaluations += 1
+            try:
+                with _w.catch_warnings():
+                    _w.simplefilter("ignore")
+                    flw1a, outa = flw.upscale(s, method=spelled, uparea=upa_arr)
+                if tuple(flw1a.shape) != tuple(flw1.shape) or not np.array_equal(flw1a.idxs_ds, flw1.idxs_ds) \
+                        or not np.array_equal(np.asarray(outa), np.asarray(out)):
+                    ctx.fail({**desc, "alias": spelled}, "spec", f"upscale(method={spelled!r}) (renamed to {method}) "
+                             f"returns another coarse network / other outlets than method={method!r}")
+            except Exception as e:  # noqa: BLE001
+                ctx.fail({**desc, "alias": spelled}, "spec", f"upscale(method={spelled!r}) (renamed to {method}) raised "
+                         f"{exc_class(e)}: {str(e)[:80]} although method={method!r} succeeds")
 
         # connection check through the public wrapper
         try:
